@@ -143,7 +143,7 @@ var clauseKeywords = map[string]bool{
 	"trusted": true, "loop": true, "decreases": true, "props": true, "noinline": true, "callreq": true,
 	"mustcall": true, "callassert": true, "havoc": true, "replay": true, "bounded": true, "nofork": true,
 	"ghost-effect": true, "known": true, "assume-ensures": true, "opaque": true, "paths": true,
-	"timeout": true, "unroll": true, "nosafe": true, "calls": true, "reads": true, "typeinv": true, "inline-calls": true, "no-visibility-frame": true, "count-calls": true, "callers": true, "rank": true,
+	"timeout": true, "unroll": true, "nosafe": true, "calls": true, "reads": true, "typeinv": true, "inline-calls": true, "no-visibility-frame": true, "count-calls": true, "callers": true, "rank": true, "aftercall": true, "stable": true,
 }
 
 // loadSpecs reads every zz_verif_contracts*.go under root.
@@ -278,7 +278,10 @@ func parseSpecFile(path, pkg string) (*SpecFile, error) {
 		case "ghost":
 			// ghost field T.name type
 			parts := strings.Fields(rest)
-			if len(parts) == 3 && parts[0] == "field" {
+			if len(parts) == 2 && parts[0] == "global" {
+				// ghost global NAME: a map from values (string ids, addresses) to integers
+				sf.Ghosts = append(sf.Ghosts, GhostField{Struct: "", Name: parts[1], Type: "int"})
+			} else if len(parts) == 3 && parts[0] == "field" {
 				dot := strings.LastIndex(parts[1], ".")
 				sf.Ghosts = append(sf.Ghosts, GhostField{Struct: parts[1][:dot], Name: parts[1][dot+1:], Type: parts[2]})
 			} else {
@@ -349,7 +352,7 @@ func parseSpecFile(path, pkg string) (*SpecFile, error) {
 						cl.Locs = append(cl.Locs, e)
 					}
 				}
-			case "callassert", "mustcall":
+			case "callassert", "mustcall", "aftercall":
 				// callassert CALLEE: expr      mustcall CALLEE when expr
 				sep := ":"
 				if w == "mustcall" {
